@@ -793,3 +793,31 @@ class UpdateCurrentContext:
     def ensures_only_the_innermost_block_is_updated_with_the_arguments_given(self, g_x, g_app, _trace):
         return (len(_trace) == 1 and _trace[0][0] == "update" and _trace[0][1] == self._ContextMixin__context_stack[2].ident
                 and _trace[0][2]["x"] == g_x and _trace[0][2]["app_id"] == g_app and len(_trace[0][2]) == 2)
+
+
+# ---- the public send_scp: the resolved x, y, p leave the keyword arguments and lead the call; everything else is handed on --------------
+def _sendscp_rec(E, obj, args, kwargs, st, node):
+    s = st.copy()
+    s.trace = ListV(s.trace.items + (("_send_scp", tuple(args), tuple(sorted(kwargs.items()))),))
+    return [(s, st.env["g_reply"], None)]
+
+
+@contract("rig/machine_control/machine_controller.py::MachineController.send_scp")
+class MCPublicSendScp:
+    """send_scp(cmd, arg1, x=.., y=.., p=.., expected_args=..): the command goes to exactly the (x, y, p) resolved for the call, the
+    positional arguments follow unchanged and every other keyword argument is handed on as given - x, y, p themselves are not
+    passed twice"""
+    properties = ("C18",)
+    params = dict(self=TRec("MachineController"), args=TTuple(TInt(), TInt()), g_x=TInt(0, 255), g_y=TInt(0, 255), g_p=TInt(0, 17),
+                  g_expected=TInt(0, 3), g_reply=TInt())
+    externals = {"MachineController._send_scp": _sendscp_rec}
+    options = {"decorators": {"use_contextual_arguments": "identity"}, "kwargs": {"x": "g_x", "y": "g_y", "p": "g_p", "expected_args": "g_expected"}}
+    assumptions = ["use_contextual_arguments as the identity: the wrapper (scenarios call_with_y ...) has put the resolved x, y, p among the keyword "
+                   "arguments; _send_scp (contract MCSendScp) is recorded"]
+
+    def native(x):
+        raise __import__("pyvc.replay", fromlist=["OutsideHarness"]).OutsideHarness()
+
+    def ensures_resolved_coordinates_lead_and_the_rest_is_handed_on(args, g_x, g_y, g_p, g_expected, g_reply, result, _trace):
+        return (result == g_reply and len(_trace) == 1
+                and _trace[0] == ("_send_scp", (g_x, g_y, g_p, args[0], args[1]), (("expected_args", g_expected),)))
